@@ -109,6 +109,8 @@ func (e *sfEnv) run(sc *sfScenario) []M {
 		obs = e.runPs(sc, end)
 	case "psq":
 		obs = e.runPsq(sc, end)
+	case "pst":
+		obs = e.runPst(sc, end)
 	case "udp":
 		obs = e.runUdp(sc, end)
 	case "client":
